@@ -22,6 +22,8 @@
 
 #include <algorithm>
 #include <cmath>
+#include <cstring>
+#include <cstdio>
 #include <filesystem>
 #include <iostream>
 #include <map>
@@ -191,7 +193,7 @@ struct Gen {
 
     GNode cmp() {
         GNode n; n.k = GNode::CMP; ++ncmp;
-        static const Strs pats = { "P*", "*", "'P*'", "I*", "X*", "*1", "\\*", "?P*", "P?", "*P*", "\\*P*", "OP_*", "'\\*'", "*L1", "*L*", "'*L2'", "*M", "O*1", "\\P1" };
+        static const Strs pats = { "P*", "*", "'P*'", "I*", "X*", "*1", "\\*", "?P*", "P?", "*P*", "\\*P*", "OP_*", "'\\*'", "*L1", "*L*", "'*L2'", "*M", "O*1", "\\P1", "P[12]*", "[!O]*", "*[1-2]", "[OP]P*", "P[!1]*", "[A-P]*", "*[]3]", "[^P]*_*", "*[3-1]", "P[1*", "'[O-P]?*'" };
         switch (rng.below(14)) {
         case 0: n.func = rng.pick(Strs{ "FOPR", "FWCT", "FUX" }); break;
         case 1: n.func = rng.coin() ? "GOPR" : "GUX"; n.args = { rng.pick(Strs{ "G1", "G2", "'G1'", "G1", "G2", "'G2'", "G1", "G2", "G*", "G3" }) }; break;
@@ -252,6 +254,25 @@ static bool ownGlob(const char* p, const char* n) {
     if (*n == 0) return false;
     if (*p == '?') return ownGlob(p + 1, n + 1);
     if (*p == '\\') { return p[1] != 0 && p[1] == *n && ownGlob(p + 2, n + 1); }
+    if (*p == '[') {
+        // documented meaning of a bracket expression: the set of its members / ranges, `!` or `^` first negates,
+        // `]` first is a member; without a closing `]` the `[` stands for itself
+        const char* q = p + 1; bool neg = false;
+        if (*q == '!' || *q == '^') { neg = true; ++q; }
+        std::string members; std::vector<std::pair<char, char>> ranges; bool first = true, closed = false;
+        while (*q) {
+            if (*q == ']' && !first) { closed = true; ++q; break; }
+            first = false;
+            char a = *q++;
+            if (a == '\\') { if (!*q) return false; a = *q++; }
+            if (*q == '-' && q[1] && q[1] != ']') { char b = q[1]; q += 2; if (b == '\\') { if (!*q) return false; b = *q++; } ranges.push_back({ a, b }); }
+            else members += a;
+        }
+        if (!closed) return *n == '[' && ownGlob(p + 1, n + 1);
+        bool in = members.find(*n) != std::string::npos;
+        for (auto& r : ranges) if (r.first <= *n && *n <= r.second) in = true;
+        return in != neg && ownGlob(q, n + 1);
+    }
     return *p == *n && ownGlob(p + 1, n + 1);
 }
 
@@ -716,6 +737,21 @@ int main(int argc, char** argv) {
                 if (std::string(typeName(Action::Parser::get_type(t))) != "expr") log.fail("token-class", t); else { log.ok(); ++stats["token_class"]; }
             for (const char* t : { "1", "1.5", "-1", "+2", ".5", "1.", "1e5", "1E-3", "2.5E+2", "007" })
                 if (std::string(typeName(Action::Parser::get_type(t))) != "number") log.fail("token-class", t); else { log.ok(); ++stats["token_class"]; }
+        }
+        // number tokens denote their value: a double printed with 17 significant digits (or an integer, or a
+        // multiple of 1/8 in plain notation) is a number token whose stored value is that double, bit for bit
+        for (int rep = 0; rep < (thorough ? 20000 : 4000); ++rep) {
+            double x; char buf[64];
+            switch (rng.range(0, 3)) {
+            case 0: { uint64_t b = (static_cast<uint64_t>(rng.range(0, 0x7fffffff)) << 33) ^ (static_cast<uint64_t>(rng.range(0, 0x7fffffff)) << 11) ^ static_cast<uint64_t>(rng.range(0, 0x7ff));
+                      std::memcpy(&x, &b, 8); if (!std::isfinite(x)) x = 1.0; std::snprintf(buf, sizeof buf, rng.coin(1, 2) ? "%.17g" : "%.16e", x); break; }
+            case 1: x = static_cast<double>(rng.range(-1000000, 1000000)); std::snprintf(buf, sizeof buf, "%.0f", x); break;
+            case 2: x = rng.range(-80000, 80000) * 0.125; std::snprintf(buf, sizeof buf, "%.3f", x); break;
+            default: x = std::ldexp(static_cast<double>(rng.range(1, 0x7fffffff)), rng.range(-1100, 990)); std::snprintf(buf, sizeof buf, rng.coin(1, 2) ? "%.17G" : "%.20e", x); break;
+            }
+            const std::string ans = realNumval(buf);
+            if (ans != "number " + vh::hexF64(x)) log.fail("number-value", std::string(buf) + " -> " + ans + " want " + vh::hexF64(x));
+            else { log.ok(); ++stats["number_value"]; }
         }
         // several actions over report steps, with redefinitions: every (name, id) respects its own limits and nothing is withheld
         for (int rep = 0; rep < (thorough ? 8000 : 2000); ++rep) {
